@@ -49,7 +49,7 @@ def _generate_model_code(
     source: list[str] = []
     # Model components
     variables = model.get_initial_conditions()
-    parameters = model.get_parameter_values()
+    parameters = dict(model.get_parameter_values())  # copy, free parameters are removed
 
     if imports is not None:
         source.extend(imports)
